@@ -10,7 +10,7 @@ PROPERTY = 'C20'
 LEVEL = 'exploration'
 RULE = ('G1 programs biased towards nesting (blocks in blocks, empty blocks and bodies, object literals incl. nested '
         'and accessors, switch with empty / fall-through clauses and default anywhere, try/catch/finally, if-else '
-        'chains, labelled blocks, multi-line strings; comments when parsed with capture), plus an enumerated family of programs nested 1..16 (thorough: 40) levels deep in 8 nesting patterns, x indentation strings '
+        'chains, labelled blocks, multi-line strings; comments when parsed with capture), plus an enumerated family of programs nested 1..16 (thorough: 40) levels deep in 8 nesting patterns and of programs made long by one sibling list of 1200 items (printed under the default recursion limit), x indentation strings '
         '(" ", "  ", tab, " \\t", 8 spaces, empty, random). Oracle (R6): the *output* is tokenised and parsed by the '
         'reference front end; for each output line that starts a token (or a comment), expected depth = number of '
         'brace pairs of blocks, function bodies, object literals and switch blocks enclosing the line\'s first token '
@@ -226,6 +226,15 @@ def run_shard(shard):
             for pat in DEEP_PATTERNS:
                 for indent in ('  ', '\t', ' '):
                     one(deep_program(depth, pat), indent, False, 'deep')
+        # long rather than deep: one sibling list of many items
+        import sys
+        limit = sys.getrecursionlimit()
+        sys.setrecursionlimit(1000)   # the interpreter's default
+        try:
+            for name, src in gen_program.long_lists(1200):
+                one(src, '\t', False, 'long_' + name)
+        finally:
+            sys.setrecursionlimit(limit)
     elif shard['kind'] == 'g1':
         cfg = gen_program.Config(nesting_bias=True)
         strat = st.tuples(gen_program.program_strategy(cfg=cfg, min_fuel=3, max_fuel=7), INDENTS, st.booleans())
